@@ -450,6 +450,13 @@ func classifyInput(c *cropCase, ex *expectation, info *evalInfo) {
 	add(len(c.Tracks) >= 2, "multi-track", "")
 	add(c.Tracks[ex.Ref].Handler == "vide", "reference-video", "reference-audio")
 	add(ex.Ref != 0, "reference-not-first-track", "")
+	nVideo := 0
+	for _, tr := range c.Tracks {
+		if tr.Handler == "vide" {
+			nVideo++
+		}
+	}
+	add(nVideo >= 2, "two-video-tracks", "")
 	add(!ex.Defined, "request-beyond-last-sync-sample", "")
 	add(c.Layout.MdatFirst, "mdat-first", "moov-first")
 	add(c.Layout.MdatLarge, "mdat-largesize", "")
@@ -635,11 +642,22 @@ func genCrop(t *rapid.T) cropCase {
 	tracks := mp4build.GenTracks(t, opt)
 	// the generator puts the video track first: sometimes drop it (audio reference) or move it
 	if len(tracks) >= 2 {
-		switch rapid.IntRange(0, 7).Draw(t, "trackShape") {
+		switch rapid.IntRange(0, 9).Draw(t, "trackShape") {
 		case 0:
 			tracks = tracks[1:]
 		case 1:
 			tracks[0], tracks[len(tracks)-1] = tracks[len(tracks)-1], tracks[0]
+		case 2, 3:
+			// a second video track with a sync-sample pattern of its own (the reference is the FIRST video track)
+			last := &tracks[len(tracks)-1]
+			last.Handler, last.StsdRaw, last.Width, last.Height = "vide", tracks[0].StsdRaw, 320, 180
+			g := rapid.IntRange(1, 5).Draw(t, "gop2")
+			for i := range last.Samples {
+				last.Samples[i].Sync = i%g == 0
+			}
+			if rapid.Bool().Draw(t, "video2First") {
+				tracks[0], tracks[len(tracks)-1] = tracks[len(tracks)-1], tracks[0]
+			}
 		}
 	}
 	alignTracks(t, tracks)
